@@ -9,6 +9,10 @@ CHECKS = {
          "Seeded random exploration of generated multisig histories (propose/approve/cancel, signer/threshold/lock changes through the wallet, re-entrant self-calls, a second multisig as signer, epoch advances) on the real actor in SimVM; after every message the wallet state must equal an independent reference model advanced by the invocation trace, every send must be a pending transaction with a quorum of distinct current signers, sent once, never dipping into the locked amount. Exploration is the right level: the property quantifies over unbounded histories and the oracle is exact per history.",
          "Trusted: SimVM's message semantics (transfer-before-call, rollback of failed calls, call-depth limit 1024), CBOR decoding with the actor's parameter types, ID-address signers only. No Wasm/gas.",
          "§3 C12"),
+ "C16": ("property-based testing (proptest, stateful op sequences) against a reference payment-channel model",
+         "Seeded random exploration of voucher/settle/collect histories (lanes, relative nonces, merges, time locks, secrets, min settle heights, extra calls, good/foreign/missing signer-bound signatures, any submitter, epoch jumps around settling_at, top-ups) on the real actor in SimVM incl. real Collect with actor deletion; after every message the channel state must equal an independent reference model, a voucher accepted although the protocol forbids it is a violation, and Collect must make exactly the two exact payouts. Exploration: unbounded histories, exact oracle per history.",
+         "Trusted: SimVM semantics, fake but signer-bound signatures, account-actor parties. Merge lists naming one lane twice judged by safety clauses only.",
+         "§3 C16"),
 }
 PENDING_REASON = "check not built yet in this session (engine planned in DESIGN.md §3); not claimed until it runs silently on the unchanged tree and kills its mutants"
 
